@@ -14,7 +14,9 @@ REPO = os.environ.get("VERIF_REPO", "/repo")
 LEAN = os.path.join(VERIF, "lean")
 HARNESS = os.path.join(VERIF, "harness")
 WORK = os.path.join(VERIF, "work")
-EVIDENCE = os.path.join(VERIF, "evidence")
+# VERIF_EVIDENCE_DIR: only for experiments on a deliberately changed tree (tools/try_mutation.sh), so that the
+# committed evidence always describes the unchanged tree
+EVIDENCE = os.environ.get("VERIF_EVIDENCE_DIR") or os.path.join(VERIF, "evidence")
 REPLAYS = os.path.join(VERIF, "replays")
 
 ALLOWED_AXIOMS = {"propext", "Classical.choice", "Quot.sound"}
